@@ -1,7 +1,7 @@
 (** * ArrowContext: the arrows and bullets of ArrowSweep / BulletSweep anywhere on the page, next to anything that does
     not touch them (with the separation theorems of C10 and the translation theorems of C06). *)
 Require Import SB.Model.Base SB.Model.Unicode SB.Model.Geom SB.Model.Fragment SB.Model.Merge SB.Model.Property
-  SB.Model.FragBuf SB.Model.Endorse SB.Theory.ArrowTheory SB.Theory.BoxSweep SB.Theory.ArrowSweep SB.Theory.BulletSweep.
+  SB.Model.FragBuf SB.Model.Endorse SB.Theory.ArrowTheory SB.Theory.BoxSweep SB.Theory.ArrowDefs SB.Theory.ArrowSweep SB.Theory.BulletSweep.
 
 Require Import SB.Theory.ShiftTheory SB.Theory.ShiftFrag SB.Theory.ShiftBuf SB.Theory.ShiftEndorse SB.Theory.SepTheory SB.Theory.SepOrder.
 Theorem arrow_recognised_in_context k L (dx dy : Z) (inA : cell -> bool) cells acc groups :
